@@ -1,4 +1,5 @@
 import Swim.Util.Parse
+import Swim.Drv.Msgpack
 import Swim.Model.Merge
 import Swim.Model.Cluster
 /-!
@@ -441,6 +442,58 @@ def handleSrc (fs : List (String × String)) : String := Id.run do
     else none
   return s!"{if listed == expect then "agree" else "DISAGREE"} {match bad with | none => "ok" | some b => "BAD:" ++ b} nt={if srcOK then 1 else 0} br=src-{getD fs "carrier" "?"} "
 
+/-- C18 (parse leg): `ParseCIDRs` returns the well-formed networks in order, and an error iff an entry was malformed -/
+def handleParse (fs : List (String × String)) : String :=
+  let want := getD fs "want" ""
+  let got := getD fs "got" ""
+  let malformed := getD fs "malformed" "0" == "1"
+  let err := getD fs "err" "0" == "1"
+  let bad : Option String :=
+    if got != want then some s!"allow-list-parser-lost-well-formed-networks:want={want},got={got}"
+    else if malformed != err then some s!"allow-list-parser-error-flag:malformed={malformed},err={err}"
+    else none
+  s!"{if bad.isNone then "agree" else "DISAGREE"} {match bad with | none => "ok" | some b => "BAD:" ++ b} nt={if malformed then 1 else 0} br=parse "
+
+/-- C01 (probe leg): the verdict of an unanswered probe is a claim about the pinged incarnation; a newer
+alive accepted meanwhile stays (the stale suspect is ignored, `C01` forward theorem on the suspect rule) -/
+def handleProbe (fs : List (String × String)) : String :=
+  let bump := getD fs "bump" "0" == "1"
+  let inc := (getNat fs "inc").getD 0
+  let st := getD fs "state" "?"
+  let got := (getNat fs "got").getD 0
+  let (wantSt, wantInc) := if bump then ("a", inc + 1) else ("s", inc)
+  let ok := st == wantSt && got == wantInc
+  let bad : Option String :=
+    if bump && st != "a" then some s!"stale-probe-verdict-overrode-newer-alive:pinged={inc},held={got},state={st}" else none
+  s!"{if ok then "agree" else "DISAGREE"} {match bad with | none => "ok" | some b => "BAD:" ++ b} nt={if bump then 1 else 0} br=probe-{if bump then "bump" else "plain"} "
+
+/-- C02 (gossip leg): after a refutation the alive message carrying the node's final incarnation is handed out -/
+def handleGossip (fs : List (String × String)) : String :=
+  let final := (getNat fs "final").getD 1
+  let handed := getD fs "handed" "0" == "1"
+  let refuted := final > 1
+  let bad : Option String :=
+    if refuted && !handed then some s!"refutation-at-incarnation-{final}-was-never-handed-out-for-gossip@{getD fs "ops" "?"}" else none
+  s!"{if bad.isNone then "agree" else "DISAGREE"} {match bad with | none => "ok" | some b => "BAD:" ++ b} nt={if refuted then 1 else 0} br=gossip "
+
+/-- C02 (stir leg): concurrent target selection leaves the member list intact -/
+def handleStir (fs : List (String × String)) : String :=
+  let missing := (getNat fs "missing").getD 0
+  let dup := (getNat fs "dup").getD 0
+  let self := (getNat fs "self").getD 0
+  let bad : Option String :=
+    if self != 1 then some s!"running-node-lists-itself-{self}-times-after-concurrent-ticks"
+    else if missing != 0 || dup != 0 then some s!"member-list-damaged-by-concurrent-ticks@missing={missing},duplicated={dup}"
+    else none
+  s!"{if bad.isNone then "agree" else "DISAGREE"} {match bad with | none => "ok" | some b => "BAD:" ++ b} nt=1 br=stir "
+
+/-- C07 (channel leg): events read late from the package's channel delegate still carry the data of their own moment -/
+def handleChan (fs : List (String × String)) : String :=
+  let want := getD fs "want" ""
+  let got := getD fs "got" ""
+  let ok := want == got
+  s!"{if ok then "agree" else "DISAGREE"} {if ok then "ok" else s!"BAD:event-read-from-the-channel-does-not-carry-the-data-of-its-moment@want={want},got={got}"} nt={if (want.splitOn ",").length ≥ 3 then 1 else 0} br=chan "
+
 def handleConc (fs : List (String × String)) : String :=
   let overlap := (getNat fs "overlap").getD 0
   let calls := (getNat fs "callbacks").getD 0
@@ -484,6 +537,12 @@ def handle (prop kind : String) (fs : List (String × String)) : String :=
   | "stuck" => s!"DISAGREE BAD:scenario-made-no-progress-for-{getD fs "after" "?"}-of-real-time(virtual-time-cannot-advance:a-goroutine-waits-for-a-lock) nt=0 br=stuck "
   | "src" => handleSrc fs
   | "conc" => handleConc fs
+  | "parse" => handleParse fs
+  | "chan" => handleChan fs
+  | "gossip" => handleGossip fs
+  | "stir" => handleStir fs
+  | "probe" => handleProbe fs
+  | "rrs" => Swim.Drv.Msgpack.handleRrs fs
   | "poll" => handlePoll fs
   | "hist" => handleHist prop fs
   | _ => "PARSE kind"
